@@ -1,0 +1,56 @@
+//! Verification hooks (cargo feature `verif-hooks`, off by default).
+//!
+//! A process-global sink receives [`VerifEvent`]s emitted at linearization points of the
+//! synchronisation protocol (while the protecting lock is still held, after the state change).
+//! When no sink is installed every hook is one relaxed load and a branch.
+
+use std::sync::OnceLock;
+use std::sync::atomic::{AtomicBool, Ordering};
+
+/// An event emitted by a verification hook.
+#[derive(Debug, Clone)]
+pub struct VerifEvent {
+    /// Name of the hook site / protocol action.
+    pub name: &'static str,
+    /// The key (query) the action is about, if any.
+    pub key: Option<crate::DatabaseKeyIndex>,
+    /// A second key (e.g. the new owner of a transferred query).
+    pub key2: Option<crate::DatabaseKeyIndex>,
+    /// Free-form scalar arguments (thread ids, result codes, counters).
+    pub args: [u64; 4],
+    /// Short textual argument (e.g. a wait result).
+    pub text: &'static str,
+}
+
+type Sink = Box<dyn Fn(&VerifEvent) + Send + Sync>;
+
+static SINK: OnceLock<Sink> = OnceLock::new();
+static ENABLED: AtomicBool = AtomicBool::new(false);
+
+/// Install the process-global sink. Can be done once per process.
+pub fn set_sink(sink: Sink) -> bool {
+    let ok = SINK.set(sink).is_ok();
+    if ok {
+        ENABLED.store(true, Ordering::Release);
+    }
+    ok
+}
+
+/// Temporarily enable / disable delivery (the sink stays installed).
+pub fn set_enabled(on: bool) {
+    if SINK.get().is_some() {
+        ENABLED.store(on, Ordering::Release);
+    }
+}
+
+#[inline]
+pub(crate) fn enabled() -> bool {
+    ENABLED.load(Ordering::Relaxed)
+}
+
+#[inline]
+pub(crate) fn emit(event: VerifEvent) {
+    if let Some(sink) = SINK.get() {
+        sink(&event);
+    }
+}
